@@ -6,11 +6,13 @@ pub trait Suite {
 
 pub mod codec;
 pub mod distro;
+pub mod sync;
 
 pub fn make(name: &str) -> Option<Box<dyn Suite>> {
     match name {
         "codec" => Some(Box::new(codec::Codec::new())),
         "distro" => Some(Box::new(distro::Distro::new())),
+        "sync" => Some(Box::new(sync::Sync::new())),
         _ => None,
     }
 }
